@@ -17,7 +17,7 @@ UTILS = 'emsarray.utils'
 def run(ctx: Context) -> None:
     p = ctx.p
     ctx.rule('R08.1', "grids: mask and dataset are cropped with the same bounds; every data variable of the cropped dataset is masked with the cropped mask and written (no skipping exit); coordinates come from the cropped dataset; the result is re-assembled like the cropped dataset", floor=7)
-    ctx.rule('R08.2', "mask_grid_data_array keeps where the mask is true and fills elsewhere, uses the first mask whose dimensions are a subset of the variable's, restores attrs and encoding, and returns the variable itself when it cannot be masked", floor=6)
+    ctx.rule('R08.2', "mask_grid_data_array keeps where the mask is true and fills elsewhere (using only the mask's values, not the coordinates it carries), uses the first mask whose dimensions are a subset of the variable's, restores attrs and encoding, and returns the variable itself when it cannot be masked", floor=6)
     ctx.rule('R08.3', "the crop window per dimension is the half-open slice [first true, last true + 1)", floor=4)
     ctx.rule('R08.4', "meshes: every mesh dimension is paired with the old-to-new table of its own element kind (edges exactly when the mask has an edge table), rows are selected at the axis position of that dimension, and every variable is either a re-indexed topology variable, copied unchanged (no mesh dimension), or row-selected", floor=9)
     ctx.rule('R08.5', "only spatially selected collections reach the output: coordinates forwarded unchanged into a clipped dataset have no mesh dimension / come from the cropped dataset", floor=3)
@@ -91,10 +91,21 @@ def run(ctx: Context) -> None:
         ok_loop = len(lps) == 1 and norm_text(lps[0].iter) == f"{m_p}.data_vars.items()"
         mvar = norm_text(lps[0].target.elts[1]) if ok_loop and isinstance(lps[0].target, ast.Tuple) else None
         other = kwarg(w, 'other') or (w.args[1] if len(w.args) > 1 else None)
-        ok = (norm_text(w.func.value) == d_p and w.args and norm_text(w.args[0]) == mvar and other is not None
+        # the condition is the loop's mask, possibly stripped of the coordinates it carries
+        cond = mflow.resolve(w.args[0]) if w.args else None
+        bare = False
+        core = cond
+        if isinstance(core, ast.Call) and isinstance(core.func, ast.Attribute) and core.func.attr == 'reset_coords' \
+                and const_value(kwarg(core, 'drop') or ast.Constant(None), None) is True and not core.args:
+            core, bare = core.func.value, True
+        elif isinstance(core, ast.Attribute) and core.attr in ('variable', 'values', 'data'):
+            core, bare = core.value, True
+        ok = (norm_text(w.func.value) == d_p and core is not None and norm_text(core) == mvar and other is not None
               and mflow.reaches(other, lambda n: isinstance(n, ast.Call) and callee(ctx, md, n) == f"{MASKING}.find_fill_value"))
         ctx.check('R08.2', ok, "values are kept where the mask is True and replaced by the fill value elsewhere: data_array.where(mask, other=fill)", md, w,
                   construct=norm_text(w))
+        ctx.check('R08.2', ok and bare, "only the values of the mask are used: coordinates the mask carries (the CF clip mask holds copies of latitude and longitude) are not attached to the masked variable, whose own name may be one of them",
+                  md, w, construct=f"where({norm_text(cond) if cond is not None else '?'}, ...)")
         from .common import guards
         g = guards(md, w)
         ok = False
@@ -329,7 +340,8 @@ from ..variants import V  # noqa: E402
 _M = 'src/emsarray/masking.py'
 _U = 'src/emsarray/conventions/ugrid.py'
 VARIANTS = [
-    V('C08', 'where-inverted', _M, "data_array.where(mask_data_array, other=fill_value))", "data_array.where(~mask_data_array, other=fill_value))", 'R08.2'),
+    V('C08', 'mask-coordinates-attached', 'src/emsarray/masking.py', "            condition = mask_data_array.reset_coords(drop=True)\n", "            condition = mask_data_array\n", 'R08.2'),
+    V('C08', 'where-inverted', _M, "data_array.where(condition, other=fill_value))", "data_array.where(~condition, other=fill_value))", 'R08.2'),
     V('C08', 'mask-any-overlap', _M, "        if dimensions >= set(mask_data_array.dims):", "        if dimensions & set(mask_data_array.dims):", 'R08.2'),
     V('C08', 'upper-bound-short', _M, "            max_index = next(len(values) - i for i, value in enumerate(reversed(values)) if value)", "            max_index = next(len(values) - i - 1 for i, value in enumerate(reversed(values)) if value)", 'R08.3'),
     V('C08', 'dataset-not-cropped', _M, "    mask = mask.isel(bounds)\n    dataset = dataset.isel(bounds)", "    mask = mask.isel(bounds)", 'R08.1'),
